@@ -68,6 +68,15 @@ func runExtra(c Extra) *ev.Failure {
 		return runDefaultRefresh(0)
 	case "close_overlap":
 		return runCloseOverlap(0)
+	case "refresh_after_outage":
+		// the pending socket error is a kernel matter: a miss is confirmed twice before it counts
+		var f *ev.Failure
+		for k := 0; k < 3; k++ {
+			if f = runRefreshAfterOutage(c); f == nil {
+				return nil
+			}
+		}
+		return f
 	}
 	return nil
 }
@@ -442,8 +451,70 @@ func runDefaultRefresh(_ int) *ev.Failure {
 	return nil
 }
 
+// runRefreshAfterOutage: the udp collector goes away, the application sends exactly one message
+// into the void (the kernel then holds a pending "connection refused" for the socket), a collector
+// listens again on the same port, and the application stays quiet: the next writer is the refresh
+// ticker (1 s). Within that refresh interval one of two things must be visible: the templates are
+// retransmitted to the collector, or the exporter has given up the connection and the
+// application's next SendSet fails. A refresh interval that passes with neither leaves the new
+// collector without templates while every send "succeeds".
+func runRefreshAfterOutage(c Extra) *ev.Failure {
+	pc, err := net.ListenUDP("udp", &net.UDPAddr{IP: net.IPv4(127, 0, 0, 1)})
+	if err != nil {
+		return nil
+	}
+	addr := pc.LocalAddr().(*net.UDPAddr)
+	t0 := time.Now()
+	ep, err := exporter.InitExportingProcess(exporter.ExporterInput{CollectorAddress: addr.String(), CollectorProtocol: "udp", ObservationDomainID: 71, TempRefTimeout: 1})
+	if err != nil {
+		pc.Close()
+		return nil
+	}
+	defer ep.CloseConnToCollector()
+	for t := 0; t < 2; t++ {
+		ts, _ := exph.TemplateSet(uint16(256+t), templates[t], t)
+		if _, err := ep.SendSet(ts); err != nil {
+			pc.Close()
+			return ev.Failf("template: %v", err)
+		}
+	}
+	pc.Close()
+	time.Sleep(20 * time.Millisecond)
+	ds, _ := exph.DataSet(256, templates[0], dataRecs(0, 1, 1), 0)
+	ep.SendSet(ds) // into the void: not judged
+	time.Sleep(30 * time.Millisecond)
+	pc2, err := net.ListenUDP("udp", addr)
+	if err != nil {
+		return nil
+	}
+	defer pc2.Close()
+	if time.Since(t0) > 700*time.Millisecond {
+		return nil // too slow to be ahead of the first tick: no verdict
+	}
+	// the application is quiet until after the first tick (t0 + 1 s)
+	var tpl int
+	buf := make([]byte, 65536)
+	pc2.SetReadDeadline(t0.Add(1600 * time.Millisecond))
+	for {
+		n, _, err := pc2.ReadFromUDP(buf)
+		if err != nil {
+			break
+		}
+		if _, sets, perr := ref.ParseMessage(buf[:n]); perr == nil && len(sets) == 1 && sets[0].ID == 2 {
+			tpl++
+		}
+	}
+	ds2, _ := exph.DataSet(256, templates[0], dataRecs(0, 1, 2), 0)
+	_, serr := ep.SendSet(ds2)
+	if tpl == 0 && serr == nil {
+		// one more tick could still come: only the first interval after the restart is judged, and it is over
+		return ev.Failf("udp collector back on its port after an outage during which one message was sent into the void: the refresh tick at 1 s retransmitted no template to it (0 template messages in 1.6 s) and the exporter did not give up the connection either (the next SendSet succeeded): a refresh interval passed without retransmission")
+	}
+	return nil
+}
+
 func extraCases(thorough bool) []Extra {
-	out := []Extra{{Kind: "json_refresh"}, {Kind: "json_refresh", N: 1}, {Kind: "json_refresh", Ticker: true}, {Kind: "dtls_ticker"}, {Kind: "refresh_unbuildable"}, {Kind: "refresh_unbuildable", N: 1}}
+	out := []Extra{{Kind: "refresh_after_outage"}, {Kind: "json_refresh"}, {Kind: "json_refresh", N: 1}, {Kind: "json_refresh", Ticker: true}, {Kind: "dtls_ticker"}, {Kind: "refresh_unbuildable"}, {Kind: "refresh_unbuildable", N: 1}}
 	n := 4
 	if thorough {
 		n = 20
